@@ -44,6 +44,9 @@ pub assume_specification<T> [std::option::Option::<T>::replace] (o: &mut std::op
 #[verifier::external_body]
 fn mem_take<T>(x: &mut Option<T>) -> (r: Option<T>) ensures r == *old(x), *final(x) is None { std::mem::take(x) }
 
+#[verifier::external_body]
+fn string_from_str(s: &str) -> (r: String) ensures r@ == s@ { String::from(s) }
+
 // R2: str == str is byte comparison (std, trusted)
 #[verifier::external_body]
 fn str_eq(a: &str, b: &str) -> (r: bool) ensures r == (a@ == b@) { a == b }
@@ -159,7 +162,7 @@ impl ObjStringStore {
 //@  loop 0 invariant dist(h, index as int, n) + dist(index as int, e, n) == dist(h, e, n)
 //@  loop 0 invariant other_before(entries@, k, h, dist(h, index as int, n))
 //@  loop 0 decreases dist(index as int, e, n)
-//@  before "index = (index + 1) & mask;" proof { lemma_succ(index, mask); }
+//@  at loop0.start proof { lemma_succ(index, mask); }
 //@end
 
 // an empty slot exists whenever fewer slots are occupied than there are slots (pigeonhole)
@@ -304,8 +307,8 @@ impl ObjStringStore {
     //@  ensures forall|k: Key, x: Root<ObjString>| k != key_of(value) ==> (holds(final(self).entries@, k, x) <==> holds(old(self).entries@, k, x))
     //@  ensures r matches Some(prev) ==> holds(old(self).entries@, key_of(value), prev)
     //@  ensures r is None ==> !has_key(old(self).entries@, key_of(value))
-    //@  after "self.adjust_capacity(self.entries.len() * 2); }" let ghost mid = self.entries@; proof { lemma_occ_bounds(mid, mid.len() as int); lemma_has_empty(mid); }
-    //@  after "let index = find_index(&self.entries, key, self.mask);" proof { lemma_found(mid, self.mask, key_of(value), index as int); lemma_put(mid, self.mask, value, index as int); lemma_occ_update(mid, mid.len() as int, index as int, Some(value)); }
+    //@  before_stmt "let key =" let ghost mid = self.entries@; proof { lemma_occ_bounds(mid, mid.len() as int); lemma_has_empty(mid); }
+    //@  after_stmt "let index =" proof { lemma_found(mid, self.mask, key_of(value), index as int); lemma_put(mid, self.mask, value, index as int); lemma_occ_update(mid, mid.len() as int, index as int, Some(value)); }
     //@end
 
     // resize: every root moves (not cloned) to its slot in the larger table; the abstract view is unchanged
@@ -321,12 +324,12 @@ impl ObjStringStore {
     //@  loop 0 invariant chain_ok(old_e, old_mask), old_e.len() == old_mask + 1, self.size as int == occ(old_e, old_e.len() as int), self.size == old(self).size, self.mask == old_mask
     //@  loop 0 invariant occ(new_entries@, new_capacity as int) == occ(old_e, it.index@ as int)
     //@  loop 0 invariant forall|k: Key, x: Root<ObjString>| holds(new_entries@, k, x) <==> holds_prefix(old_e, it.index@ as int, k, x)
-    //@  before "let index = find_index(&new_entries, key, mask);" proof { lemma_occ_mono(old_e, it.index@ as int, old_e.len() as int); lemma_occ_bounds(old_e, old_e.len() as int); lemma_has_empty(new_entries@); }
-    //@  after "let index = find_index(&new_entries, key, mask);" let ghost v = old_e[it.index@ as int].unwrap(); let ghost before = new_entries@; proof { lemma_found(before, mask, key_of(v), index as int); if before[index as int].is_some() { let x = before[index as int].unwrap(); assert(holds_prefix(old_e, it.index@ as int, key_of(v), x)); let i0 = choose|i0: int| 0 <= i0 < it.index@ && #[trigger] old_e[i0] == Some(x) && key_of(x) == key_of(v); lemma_unique(old_e, old_mask, i0, it.index@ as int); } lemma_put(before, mask, v, index as int); lemma_occ_update(before, before.len() as int, index as int, Some(v)); lemma_prefix_step(old_e, it.index@ as int); }
-    //@  after "*dest = mem_take(entry);" proof { assert(new_entries@ =~= before.update(index as int, Some(v))); assert(!has_key(before, key_of(v))); assert forall|k: Key, x: Root<ObjString>| holds(new_entries@, k, x) <==> holds_prefix(old_e, it.index@ as int + 1, k, x) by { if k == key_of(v) { assert(!holds(before, k, x)); assert(!holds_prefix(old_e, it.index@ as int, k, x)); if holds(new_entries@, k, x) { assert(x == v); } } else { assert(holds(new_entries@, k, x) <==> holds(before, k, x)); } } }
+    //@  before_stmt "let index =" proof { lemma_occ_mono(old_e, it.index@ as int, old_e.len() as int); lemma_occ_bounds(old_e, old_e.len() as int); lemma_has_empty(new_entries@); }
+    //@  after_stmt "let index =" let ghost v = old_e[it.index@ as int].unwrap(); let ghost before = new_entries@; proof { lemma_found(before, mask, key_of(v), index as int); if before[index as int].is_some() { let x = before[index as int].unwrap(); assert(holds_prefix(old_e, it.index@ as int, key_of(v), x)); let i0 = choose|i0: int| 0 <= i0 < it.index@ && #[trigger] old_e[i0] == Some(x) && key_of(x) == key_of(v); lemma_unique(old_e, old_mask, i0, it.index@ as int); } lemma_put(before, mask, v, index as int); lemma_occ_update(before, before.len() as int, index as int, Some(v)); lemma_prefix_step(old_e, it.index@ as int); }
+    //@  after_stmt "*dest =" proof { assert(new_entries@ =~= before.update(index as int, Some(v))); assert(!has_key(before, key_of(v))); assert forall|k: Key, x: Root<ObjString>| holds(new_entries@, k, x) <==> holds_prefix(old_e, it.index@ as int + 1, k, x) by { if k == key_of(v) { assert(!holds(before, k, x)); assert(!holds_prefix(old_e, it.index@ as int, k, x)); if holds(new_entries@, k, x) { assert(x == v); } } else { assert(holds(new_entries@, k, x) <==> holds(before, k, x)); } } }
     //@  at loop0.end proof { lemma_prefix_step(old_e, it.index@ as int); }
-    //@  before "for entry in" proof { lemma_occ_none(new_entries@, new_capacity as int); }
-    //@  before "self.entries = new_entries;" proof { lemma_prefix_all(old_e); }
+    //@  before_stmt "for entry in" proof { lemma_occ_none(new_entries@, new_capacity as int); }
+    //@  before_stmt "self.entries =" proof { lemma_prefix_all(old_e); }
     //@end
 }
 
@@ -375,6 +378,85 @@ proof fn lemma_mask_double(mask: usize)
 {
     let m = mask as u64;
     assert(m < 0x4_0000_0000_0000u64 && (m & add(m, 1)) == 0 ==> (sub(mul(2, add(m, 1)), 1) & add(sub(mul(2, add(m, 1)), 1), 1)) == 0) by(bit_vector);
+}
+
+impl ObjStringStore {
+    //@fn file=yarel/src/vm.rs path="string_store::<Default for ObjStringStore>::default" ret=r
+    //@  subst "entries: vec![Default::default(); INIT_CAPACITY]," => "entries: vec![None; INIT_CAPACITY]," count=1
+    //@  ensures r.wf(), forall|k: Key, x: Root<ObjString>| !holds(r.entries@, k, x)
+    //@  at body.start proof { assert((3usize & 4usize) == 0) by(bit_vector); assert forall|e: Slots| e.len() == 4 && (forall|i: int| 0 <= i < 4 ==> (#[trigger] e[i]).is_none()) implies #[trigger] occ(e, 4) == 0 by { lemma_occ_none(e, 4); } }
+    //@end
+}
+//@const file=yarel/src/vm.rs name=string_store::INIT_CAPACITY
+
+// ------------------------------------------------------------------ Vm::new_gc_obj_string
+// FNV-1a over the bytes of the str (hash.rs FnvHasher + std `impl Hash for str`): a function of the byte sequence.
+// Determinism/totality of FnvHasher::write is checked by Kani (unit hashk, bounded length); std's Hash for str is trusted.
+pub uninterp spec fn fnv_spec(s: Seq<char>) -> u64;
+#[verifier::external_body]
+fn fnv_hash_str(data: &str) -> (r: u64) ensures r == fnv_spec(data@) { unimplemented!() }
+
+impl<T> Root<T> {
+    // Heap allocation of a new rooted object (memory.rs Root::new -> Heap::allocate_root)
+    #[verifier::external_body]
+    pub fn new(data: T) -> (r: Root<T>) ensures r.obj() == data { unimplemented!() }
+}
+impl ObjString {
+    //@fn file=yarel/src/object.rs path=ObjString::new ret=r
+    //@  subst "String::from(string)" => "string_from_str(string)" count=1
+    //@  ensures r.string@ == string@ && r.hash == hash && r.class == class
+    //@end
+}
+
+//@struct file=yarel/src/vm.rs name=Vm keepfields=string_class,string_store map "string_store::ObjStringStore" => "ObjStringStore"
+
+// the key under which a byte string is interned
+pub open spec fn skey(data: Seq<char>) -> Key { (fnv_spec(data), data) }
+
+impl Vm {
+    //@fn file=yarel/src/vm.rs path=Vm::new_gc_obj_string ret=r
+    //@  subst "{ let mut hasher = FnvHasher::new(); (*data).hash(&mut hasher); hasher.finish() }" => "fnv_hash_str(data)" count=1
+    //@  subst ".expect(\"Expected Root.\")" => ".unwrap()" count=1
+    //@  requires old(self).string_store.wf(), old(self).string_store.entries@.len() <= 0x4_0000_0000_0000, old(self).string_class is Some
+    //@  ensures final(self).string_store.wf()
+    //@  ensures exists|x: Root<ObjString>| holds(final(self).string_store.entries@, skey(data@), x) && x.id() == r.id() && x.obj().string@ == data@
+    //@  ensures forall|x: Root<ObjString>| holds(old(self).string_store.entries@, skey(data@), x) ==> x.id() == r.id()
+    //@  ensures forall|k: Key, x: Root<ObjString>| holds(old(self).string_store.entries@, k, x) ==> holds(final(self).string_store.entries@, k, x)
+    //@  ensures forall|k: Key, x: Root<ObjString>| k != skey(data@) ==> (holds(final(self).string_store.entries@, k, x) <==> holds(old(self).string_store.entries@, k, x))
+    //@  ensures has_key(old(self).string_store.entries@, skey(data@)) ==> final(self).string_store.entries@ == old(self).string_store.entries@
+    //@end
+}
+
+// ------------------------------------------------------------------ C11 itself, as a lemma over the contract of new_gc_obj_string only
+// Allocator assumption: one heap cell holds one object, so equal identities mean equal contents.
+pub broadcast axiom fn axiom_id_determines_obj(a: Root<ObjString>, b: Root<ObjString>)
+    requires #[trigger] a.id() == #[trigger] b.id()
+    ensures a.obj() == b.obj();
+
+// Two strings created at any two points of a history (s1: store after the first creation, s2: store before the second,
+// reached from s1 by any number of further creations, which only add keys) are the same object iff their bytes are equal.
+//@lemma name=lemma_c11_identity_iff_content props=C11
+proof fn lemma_c11_identity_iff_content(s1: Slots, s2: Slots, s3: Slots, d1: Seq<char>, d2: Seq<char>, x1: Root<ObjString>, x2: Root<ObjString>, id1: int, id2: int)
+    requires
+        // post of the first call (result id1) on s1
+        holds(s1, skey(d1), x1) && x1.id() == id1 && x1.obj().string@ == d1,
+        // creations in between never remove or re-home an interned string (post#4 of every call)
+        forall|k: Key, x: Root<ObjString>| holds(s1, k, x) ==> holds(s2, k, x),
+        // post of the second call (s2 -> s3, result id2)
+        holds(s3, skey(d2), x2) && x2.id() == id2 && x2.obj().string@ == d2,
+        forall|x: Root<ObjString>| holds(s2, skey(d2), x) ==> x.id() == id2,
+    ensures
+        d1 == d2 ==> id1 == id2,
+        d1 != d2 ==> id1 != id2,
+{
+    broadcast use axiom_id_determines_obj;
+    if d1 == d2 {
+        assert(holds(s2, skey(d2), x1));
+    } else {
+        if id1 == id2 {
+            assert(x1.obj() == x2.obj());
+        }
+    }
 }
 
 } // verus!
